@@ -53,6 +53,16 @@ def make_images(bdir, seed, cd, ndamaged, bigmeta=False):
             b = bytearray(data)
             b[off:off + ln] = new.to_bytes(ln, "little")
             bad, desc = bytes(b), ["%s @%d: %d -> %d" % (fname, off, old, new)]
+        names = [f for f in fields if f[0].endswith(".name") and f[2] >= 3]
+        if names and i % 3 == 1:
+            # an entry name with a NUL byte in the middle: C string handling anywhere between the image and the caller's path now
+            # sees a shorter name than the entry's length field says
+            fname, off, ln = mr.choice(names)
+            pos = off + mr.randrange(1, ln - 1)
+            b = bytearray(data)
+            old = b[pos]
+            b[pos] = 0
+            bad, desc = bytes(b), ["%s byte @%d: %#x -> 0x0" % (fname, pos, old)]
         name = "damaged%d.sqfs" % i
         with open(os.path.join(cd, name), "wb") as f:
             f.write(bad)
@@ -162,6 +172,14 @@ def replay(spec, bdir=None):
     with Scratch("c10r") as cd:
         images, _ = make_images(bdir, spec["seed"], cd, spec["ndamaged"])
         name, valid, desc = images[spec["k"]]
+        if spec.get("memcheck_in_context"):
+            lo, hi, histlen = spec["context"]
+            cmd = [os.path.join(bdir, "plain", "scn-reader"), "run", os.path.join(cd, name), str(derive(spec["seed"], "h", spec["k"]) >> 1), str(lo), str(hi), str(histlen)]
+            vgp = subprocess.run(["valgrind", "-q", "--error-exitcode=79"] + cmd, stdout=subprocess.PIPE, stderr=subprocess.PIPE, timeout=3000)
+            ok = vgp.returncode == 79 or b"== " in vgp.stderr
+            print(vgp.stderr.decode(errors="replace")[:1200])
+            print("replay: memcheck over histories %d..%d -> %s" % (lo, hi - 1, "REPRODUCED" if ok else "not reproduced"))
+            return 1 if ok else 0
         r = run_hist(os.path.join(bdir, "plain", "scn-reader"), os.path.join(cd, name), valid, spec["ops"], spec["fails"], spec["afail"])
         ok = r[0] == 1 and r[2] == spec["why"]
         print(r[4][-1500:])
@@ -214,6 +232,24 @@ def main():
             a = run_hist(binary, img, valid, v["ops"], v["fails"], v["afail"])
             b = run_hist(binary, img, valid, v["ops"], v["fails"], v["afail"])
             if a[0] != 1 or a[2] != v["why"] or a[3] != b[3]:
+                # the divergence needs the histories that ran before it in the same process: answers that depend on leftovers in memory.
+                # Re-run that stretch in context, twice, and under memcheck; an uninitialised / out-of-bounds read there is the finding.
+                lo, hi = max(0, v.get("hist", 0) - 8), v.get("hist", 0) + 1
+                master = derive(r["case"]["seed"], "h", v["k"]) >> 1
+                cmd = [binary, "run", img, str(master), str(lo), str(hi), str(histlen)]
+                c1 = subprocess.run(cmd, stdout=subprocess.PIPE, stderr=subprocess.PIPE, timeout=1200).stdout
+                c2 = subprocess.run(cmd, stdout=subprocess.PIPE, stderr=subprocess.PIPE, timeout=1200).stdout
+                vgp = subprocess.run(["valgrind", "-q", "--error-exitcode=79"] + cmd, stdout=subprocess.PIPE, stderr=subprocess.PIPE, timeout=3000)
+                if b"VIOL hist=%d " % v.get("hist", -1) in c1 and c1 == c2 and (vgp.returncode == 79 or b"== " in vgp.stderr):
+                    err = vgp.stderr.decode(errors="replace")
+                    m = re.search(r"==\d+== (.*)\n==\d+==    at 0x[0-9A-F]+: (\w+)", err)
+                    what, where = (m.group(1), m.group(2)) if m else ("memcheck error", "?")
+                    spec = {"property": PROP, "seed": r["case"]["seed"], "ndamaged": ndamaged, "k": v["k"], "image": v["image"], "damage": v["damage"],
+                            "context": [lo, hi, histlen], "why": v["why"], "memcheck_in_context": True, "stderr": err[:1500]}
+                    rep.violation("context-dependent:%s:%s:%s" % (v["why"].split(":")[0], where, re.sub(r"\W+", "-", what)[:50]),
+                                  "histories %d..%d on %s (%s): %s in %s; the divergence %s only shows after the preceding histories ran in the same process" % (
+                                      lo, hi - 1, v["image"], v["damage"], what, where, v["why"]), rep.write_replay("c10", spec))
+                    continue
                 rep.harness_error("divergence %s did not reproduce identically (%s / %s): seed=%s k=%s image=%s damage=%s hist=%s ops=%s fails=%s afail=%s" % (
                     key, a[2], b[2], r["case"]["seed"], v["k"], v["image"], v["damage"], v.get("hist"), v["ops"], v["fails"], v["afail"]))
                 continue
